@@ -388,9 +388,35 @@ def flow_status(ctx, facts):
     ctx.floor("FLOW-status", "Ok returns", n, 1)
     # min_status is folded over (status, other): its first operand derives from status itself
     for k, (bb, t) in enumerate(ms):
-        org = flow.origins(b, t["args"][0], through_calls=(r"Try::branch$", r"Option::<T>::ok_or$"))
         allowed = {("call", x) for x, _ in gs} | {("call", x) for x, _ in ms}
-        ctx.ob("FLOW-status", f"fold#{k}", org <= allowed, "min_status folds the running status", site_of(b, bb))
+        okf = any(flow.origins(b, a_, through_calls=(r"Try::branch$", r"Option::<T>::ok_or$")) <= allowed for a_ in t["args"])
+        ctx.ob("FLOW-status", f"fold#{k}", okf, "min_status folds the running status", site_of(b, bb))
+    # a fold inside a loop must be carried: one operand is the previous result of the fold itself, the other the item
+    for k, (bb, t) in enumerate(ms):
+        in_loop = any(bb in b.reachable(sx) for sx in b.succs(bb))
+        if not in_loop:
+            continue
+        cycle = {x for x in b.reachable(bb) if bb in b.reachable(x)}
+        # the accumulator: the call's destination and what it is moved into *inside the loop*
+        acc = {t["d"][0]} if t.get("d") else set()
+        for _ in range(6):
+            for xbb, idx, s_ in b.iter_assigns():
+                if xbb in cycle and s_["r"]["k"] == "use" and len(s_["p"]) == 1 and F.op_local(s_["r"]["o"]) in acc:
+                    acc.add(s_["p"][0])
+        def back(l, hops=6):
+            # through copy temporaries defined inside the loop only
+            while hops:
+                ds = b.defs().get(l, [])
+                if len(ds) == 1 and ds[0][1] != "t" and ds[0][2]["k"] == "use" and ds[0][0] in cycle and F.op_local(ds[0][2]["o"]) is not None:
+                    l = F.op_local(ds[0][2]["o"])
+                    hops -= 1
+                    continue
+                break
+            return l
+        carried = [i for i, a_ in enumerate(t["args"]) if F.op_local(a_) is not None and back(F.op_local(a_)) in acc]
+        item = [i for i, a_ in enumerate(t["args"]) if i not in carried and "get_state_from_error" in str(flow.expr_of(b, a_, max_depth=30))]
+        okc = len(carried) == 1 and len(item) == 1
+        ctx.ob("FLOW-status", f"fold#{k}:carried", okc, "min_status(running minimum, this shard's status) - the minimum is carried from one shard to the next" if okc else ("the fold does not take its own previous result: the reported status is min(leader, last differing shard), not the least advanced status among all shards" if not carried else "the fold does not take the differing shard's status"), site_of(b, bb))
     # leader guard: the first Err return is decided before get_status is called
     dom = b.dominators()
     idn = flow.find_calls(b, r"Transport::identity$")
